@@ -413,7 +413,11 @@ def oracles(ck):
     # ---- phase 1
     reqs, where = [], []
     for ci, c in enumerate(cases):
+        # thorough tier: the operands-on-their-own / forcing-order programs for one case in three
+        light = ck.tier == "thorough" and ci >= ncorpus and ci % 3 != 0
         for name, prog in c["progs"].items():
+            if light and name.startswith("alone:"):
+                continue
             reqs.append("\t" + esc(prog))
             where.append((ci, name))
         reqs.append("depsunknown\t" + esc(c["progs"]["merged"]))
@@ -461,7 +465,7 @@ def oracles(ck):
             if (m.startswith("OK") != s.startswith("OK")) or (m.startswith("OK") != u.startswith("OK")):
                 ck.violation("oracle:subst:corpus", "corpus override: merged %s, substituted %s, H4 %s" % (m[:80], s[:80], u[:80]),
                              {"case": c["progs"], "outcomes": r})
-        if c.get("lets"):
+        if c.get("lets") and "alone:o0" in r:
             ok_ops = [nm for nm in c["names"] if r.get("alone:" + nm, "").startswith("OK")]
             ck.hist("operands_exportable_alone", len(ok_ops))
             if ok_ops:
